@@ -154,7 +154,7 @@ THOROUGH = QUICK + ['hcp-2', 'tetra-ab-3']
 
 def sections(tier):
     S = run.Section
-    return [S('clusters:' + c, enumerate_case(c), budget_s=175 if tier == 'quick' else 3000, replayer='clusters', config=c, maxpaths=200,
+    return [S('clusters:' + c, enumerate_case(c), budget_s=175 if tier == 'quick' else 1200, replayer='clusters', config=c, maxpaths=200,
               timeout_ms=20000) for c in (QUICK if tier == 'quick' else THOROUGH)]
 
 
